@@ -27,6 +27,7 @@ PROPS = {
     'C15': dict(mc=[('MC_Math', ['slip'])], math=['slip'], world=['random']),
     'C16': dict(mc=[], world=['registry', 'matrix']),
     'C17': dict(mc=[], world=['registry']),
+    'C18': dict(mc=[], math=['text'], level='exploration'),
     'C19': dict(mc=[], world=['registry']),
     'C20': dict(mc=[], world=['withdraw', 'random']),
 }
@@ -40,6 +41,8 @@ WORLD_N = {
 }
 
 MATH_N = {'quick': 1600, 'thorough': 24000}
+# pure evaluation events (no formula re-derivation) are cheap: more of them
+MATH_N_CHEAP = {'quick': 6000, 'thorough': 120000}
 
 ASSUMPTIONS = [
     'contracts run natively against cw-multi-test 0.16.1 / cosmwasm-std 1.1.8 / cw20-base 1.0.0, not as wasm on a chain',
@@ -136,7 +139,8 @@ def check(pid, tier, seed):
         # ---- function-level traces -------------------------------------------------------------
         if spec.get('math'):
             tp = os.path.join(workdir, 'math.ndjson')
-            core.harness(['math', '--seed', str(seed), '--n', str(MATH_N[tier]), '--kinds', ','.join(spec['math']),
+            n_math = (MATH_N_CHEAP if pid in ('C08', 'C18') else MATH_N)[tier]
+            core.harness(['math', '--seed', str(seed), '--n', str(n_math), '--kinds', ','.join(spec['math']),
                           '--out', tp])
             res = core.validate_trace('Trace_Math', tp, os.path.join(workdir, 'tv_math'))
             for r in res['reports']:
